@@ -34,12 +34,23 @@ EXPECT_NOTES = {'all': ['no-consistent-assignment', 'consistent-settled']}
 FLOORS = {'quick': {'paths': 500, 'checks': 1000}, 'thorough': {'paths': 5000, 'checks': 10000}}
 
 COUNT = [0]
+RUNAWAY = 500          # watchdog: far beyond any documented limit (3 x <= 8 blocks)
+
+
+class Runaway(BaseException):
+    pass
+
+
+def tick():
+    COUNT[0] += 1
+    if COUNT[0] > RUNAWAY:
+        raise Runaway()
 
 
 def counted(cls):
     class C(cls):
         def calc_output(self):
-            COUNT[0] += 1
+            tick()
             return super().calc_output()
     C.__name__ = 'C' + cls.__name__
     return C
@@ -49,7 +60,7 @@ CNot, CXor, CAnd, COr = counted(edzed.Not), counted(edzed.Xor), counted(edzed.An
 
 
 def ident(x):
-    COUNT[0] += 1
+    tick()
     return bool(x)      # boolean identity (an uninitialised predecessor in a loop reads as False)
 
 
@@ -113,6 +124,13 @@ def is_consistent(spec, inputs, real):
 
 
 def run_net(env, spec, ninputs, label_prefix, expect_acyclic=False, order_budget=10 ** 9):
+    try:
+        _run_net(env, spec, ninputs, label_prefix, expect_acyclic, order_budget)
+    except Runaway:
+        env.check('eval-bound', False, info=lambda: (spec, 'more than %d evaluations in one burst' % RUNAWAY))
+
+
+def _run_net(env, spec, ninputs, label_prefix, expect_acyclic, order_budget):
     drv = Driver(order_budget=order_budget)
     vals = [env.int(f'i{k}') for k in range(ninputs)]
     inp = [edzed.Input(f'i{k}', initdef=v) for k, v in enumerate(vals)]
@@ -242,6 +260,13 @@ def scen_acyclic(env, name, order_budget=6):
 
 
 def scen_event_loop(env, kind):
+    try:
+        _event_loop(env, kind)
+    except Runaway:
+        env.check('eval-bound', False, info=lambda: 'runaway')
+
+
+def _event_loop(env, kind):
     """feedback closed through an on_output event: CBlock -> Input -> CBlock"""
     drv = Driver()
     v = env.int('i0')
